@@ -35,6 +35,16 @@ def main():
             if a.replay:
                 return parsechecks.replay(prop, a.replay)
             return parsechecks.run(prop, a.tier, seed)
+        if prop == "C01":
+            from hv import execchecks
+            if a.replay:
+                return execchecks.replay(prop, a.replay)
+            return execchecks.run(prop, a.tier, seed)
+        if prop == "C02":
+            from hv import optchecks
+            if a.replay:
+                return optchecks.replay(prop, a.replay)
+            return optchecks.run(prop, a.tier, seed)
         print("unknown property", prop)
         return 2
     except C.BuildError as e:
